@@ -233,12 +233,18 @@ int pthread_mutex_init(pthread_mutex_t *m, const pthread_mutexattr_t *a) {
 	vf_mtx_init_calls ++;
 	__CPROVER_assert(vf_mtx_live == NULL, "mutex: harness models one live mutex");
 	vf_mtx_live = m;
+#ifdef VF_MTX_INIT_HOOK
+	VF_MTX_INIT_HOOK(m);
+#endif
 	return (0);
 }
 int pthread_mutex_destroy(pthread_mutex_t *m) {
 	vf_mtx_destroy_calls ++;
 	__CPROVER_assert(m == vf_mtx_live && m != NULL, "mutex destroy: mutex is initialised");
 	__CPROVER_assert(vf_mtx_held == NULL, "mutex destroy: not held");
+#ifdef VF_MTX_DESTROY_HOOK
+	VF_MTX_DESTROY_HOOK(m);		/* harness observes the state protected by the mutex at its end of life */
+#endif
 	vf_mtx_live = NULL;
 	return (0);
 }
